@@ -2169,7 +2169,15 @@ func (c *compiler) isUnreachableForCallee(e *ast.FuncCall, decl *ast.FuncDecl, p
 		return false
 	}
 	for _, param := range decl.Parameters {
+		if param.Name.Literal == paramName {
+			continue
+		}
 		if !param.Type.IsReference {
+			// evaluating another argument must not be able to change the variable either (it is evaluated after this one was passed),
+			// which is only certain for names and literals
+			if !isPlainArgument(e.Args[param.Name.Literal]) {
+				return false
+			}
 			continue
 		}
 		if ass, ok := e.Args[param.Name.Literal].(ast.Assigneable); !ok || assignableRoot(ass) == argDecl {
@@ -2177,6 +2185,17 @@ func (c *compiler) isUnreachableForCallee(e *ast.FuncCall, decl *ast.FuncDecl, p
 		}
 	}
 	return true
+}
+
+// reports wether expr is a name or a literal (possibly in parentheses), so that evaluating it cannot have side effects
+func isPlainArgument(expr ast.Expression) bool {
+	switch expr := expr.(type) {
+	case *ast.Grouping:
+		return isPlainArgument(expr.Expr)
+	case *ast.Ident, *ast.IntLit, *ast.FloatLit, *ast.BoolLit, *ast.CharLit, *ast.StringLit:
+		return true
+	}
+	return false
 }
 
 func (c *compiler) evaluateStructLiteral(structType *ddptypes.StructType, args map[string]ast.Expression) (value.Value, ddpIrType) {
